@@ -19,18 +19,24 @@ if os.path.isdir(seed):
 def sh(cmd, **kw):
     return subprocess.run(cmd, shell=True, capture_output=True, text=True, **kw)
 meta = {'seed': sid, 'property': prop, 'ran': []}
+recheck = not os.path.isdir(wt)          # worktree already removed: keep the recorded confirmation, re-run only our checks
+if recheck:
+    old = json.load(open(os.path.join(dst, 'meta.json')))
+    meta = {k: old[k] for k in old if k not in ('checks', 'detected')}
+    meta['ran'] = [r for r in old.get('ran', []) if r.startswith('scratch worktree')]
 patch = os.path.join(dst, 'patch.diff')
-# 1. confirmation in the scratch worktree
-r = sh('git checkout -q -- . && git apply %s && make -s 2>&1 | tail -2 && ./runtests 2>&1 | tail -1' % patch, cwd=wt)
-meta['with_change_tests'] = r.stdout.strip().split('\n')[-1]
-d1 = sh('sh %s/demo/run.sh %s' % (dst, wt), cwd=wt)
-meta['demo_with_change_rc'] = d1.returncode
-r = sh('git checkout -q -- . && make -s 2>&1 | tail -2 && ./runtests 2>&1 | tail -1', cwd=wt)
-meta['without_change_tests'] = r.stdout.strip().split('\n')[-1]
-d0 = sh('sh %s/demo/run.sh %s' % (dst, wt), cwd=wt)
-meta['demo_without_change_rc'] = d0.returncode
-meta['confirmed'] = ('170/170' in meta['with_change_tests'] and d1.returncode != 0 and d0.returncode == 0)
-meta['ran'].append('scratch worktree %s: git apply; make; ./runtests; demo/run.sh (rc %d with change, %d without)' % (wt, d1.returncode, d0.returncode))
+if not recheck:
+    # 1. confirmation in the scratch worktree
+    r = sh('git checkout -q -- . && git apply %s && make -s 2>&1 | tail -2 && ./runtests 2>&1 | tail -1' % patch, cwd=wt)
+    meta['with_change_tests'] = r.stdout.strip().split('\n')[-1]
+    d1 = sh('sh %s/demo/run.sh %s' % (dst, wt), cwd=wt)
+    meta['demo_with_change_rc'] = d1.returncode
+    r = sh('git checkout -q -- . && make -s 2>&1 | tail -2 && ./runtests 2>&1 | tail -1', cwd=wt)
+    meta['without_change_tests'] = r.stdout.strip().split('\n')[-1]
+    d0 = sh('sh %s/demo/run.sh %s' % (dst, wt), cwd=wt)
+    meta['demo_without_change_rc'] = d0.returncode
+    meta['confirmed'] = ('170/170' in meta['with_change_tests'] and d1.returncode != 0 and d0.returncode == 0)
+    meta['ran'].append('scratch worktree %s: git apply; make; ./runtests; demo/run.sh (rc %d with change, %d without)' % (wt, d1.returncode, d0.returncode))
 # 2. our checks against /repo with the change applied (undone straight afterwards)
 res = {}
 st = sh('git -C /repo status --porcelain').stdout.strip()
